@@ -534,7 +534,6 @@ impl<'a> FmtVisitor<'a> {
     ) {
         let enum_header =
             format_header(&self.get_context(), "enum ", ident, vis, self.block_indent);
-        self.push_str(&enum_header);
 
         let enum_snippet = self.snippet(span);
         let brace_pos = enum_snippet.find_uncommented("{").unwrap();
@@ -552,8 +551,14 @@ impl<'a> FmtVisitor<'a> {
             // make a span that starts right after `enum Foo`
             mk_sp(ident.span.hi(), body_start),
             last_line_width(&enum_header),
-        )
-        .unwrap();
+        );
+        let Some(generics_str) = generics_str else {
+            // The generics or the where clause do not fit on the page: leave the enum as it is.
+            self.push_str(enum_snippet.trim());
+            self.last_pos = span.hi();
+            return;
+        };
+        self.push_str(&enum_header);
         self.push_str(&generics_str);
 
         self.last_pos = body_start;
